@@ -135,4 +135,29 @@ def dShort (layer : Nat) : UInt := fun info req _ => ([.decor layer info req], 9
 def dRewrite (layer : Nat) : UInt := fun info req h => let (es, r) := h (req + 1); (.decor layer info req :: es, r + 1000)
 def appEcho : UHandler := fun req => ([.app req], req)
 
+/-! ### registry views (`WithInterceptor`) -/
+
+/-- a registry seen through zero or more views; `base` is where registrations end up -/
+inductive Reg where
+  | base
+  | view (inner : Reg) (u : Option UInt) (s : Option SInt)
+
+/-- `WithInterceptor(reg, u, s)`: both nil ⇒ the registry itself, otherwise a new view on top of it -/
+def withInterceptor (r : Reg) (u : Option UInt) (s : Option SInt) : Reg :=
+  let both := if Gen.registryIdentityCond == "&&" then (u.isNone && s.isNone) else (u.isNone || s.isNone)
+  if both then r else .view r u s
+
+/-- what the base registry ends up holding for one unary method registered through `r`
+    (`interceptingRegistry.RegisterService` hands `InterceptServer(desc, u, s)` to the registry below) -/
+def Reg.registerUnary : Reg → MethodHandler → MethodHandler
+  | .base, h => h
+  | .view inner (some u) _, h => inner.registerUnary (decorateUnary u h)
+  | .view inner none _, h => inner.registerUnary h
+
+/-- the same for a stream handler with the info `InterceptServer` builds for it -/
+def Reg.registerStream : Reg → StreamInfo → SHandler → SHandler
+  | .base, _, h => h
+  | .view inner _ (some s), info, h => inner.registerStream info (decorateStream s info h)
+  | .view inner _ none, info, h => inner.registerStream info h
+
 end InterceptServer
